@@ -13,6 +13,7 @@
  * elements, n crosses the 16-element chunks of the emulator and the vector widths.
  */
 #include "hcommon.h"
+#include "hcgen.h"
 
 #define MAXN 1024
 static orc_uint8 bufA[MAXN * 32 + 256], bufB[MAXN * 32 + 256], bufD[MAXN * 32 + 256], bufD2[MAXN * 32 + 256];
@@ -36,7 +37,7 @@ bytes_json (HBuf *b, const char *key, const orc_uint8 *p, int n)
   hb_printf (b, "]");
 }
 
-typedef struct { OrcProgram *p; OrcStaticOpcode *op; int mult; int sa, sb, sd, sd2; int scalar_b; int is_acc; int var_d, var_d2, var_a, var_b; } Prog;
+typedef struct { OrcProgram *p; OrcStaticOpcode *op; int mult; int sa, sb, sd, sd2; int scalar_b; int is_acc; int var_d, var_d2, var_a, var_b; HCFn cfn; } Prog;
 
 static int force_kind;          /* 0: arrays, 1: second operand is a parameter, 2: a constant */
 static orc_uint64 const_value;
@@ -75,6 +76,8 @@ make (Prog *g, const char *opname, int mult, OrcTarget *t, int *cls)
     args[na++] = g->var_b;
   }
   orc_program_append_2 (g->p, opname, flags, args[0], args[1], args[2], args[3]);
+  if (hc_mode == 'g') { *cls = hc_emit (g->p) ? 0 : 0x200; return 1; }
+  if (hc_mode == 'r') { g->cfn = hc_next (); *cls = g->cfn ? 0 : 0x200; return 1; }
   res = t ? orc_program_compile_for_target (g->p, t) : orc_program_compile_for_target (g->p, NULL);
   *cls = res;
   return 1;
@@ -88,6 +91,7 @@ run_block (Prog *g, const char *path, int native, int n, int off, orc_uint64 bpa
   int ea = g->sa * g->mult, eb = g->sb * g->mult, ed = g->sd * g->mult, ed2 = g->sd2 * g->mult;
   orc_uint8 *A = bufA + 64 + off * ea, *B = bufB + 64 + off * (eb ? eb : 1), *D = bufD + 64 + off * (ed ? ed : 1),
       *D2 = bufD2 + 64 + off * (ed2 ? ed2 : 1);
+  if (hc_mode == 'g') return;         /* the operands were drawn; nothing is run while generating */
   memset (&ex, 0, sizeof (ex));
   orc_executor_set_program (&ex, g->p);
   ex.n = n;
@@ -98,7 +102,7 @@ run_block (Prog *g, const char *path, int native, int n, int off, orc_uint64 bpa
     if (g->scalar_b == 1) { ex.params[g->var_b] = (int) bparam; ex.params[g->var_b + (ORC_VAR_T1 - ORC_VAR_P1)] = (int) (bparam >> 32); }
     else if (g->scalar_b == 0) ex.arrays[g->var_b] = B;
   }
-  if (native) orc_executor_run (&ex); else orc_executor_emulate (&ex);
+  if (g->cfn) g->cfn (&ex); else if (native) orc_executor_run (&ex); else orc_executor_emulate (&ex);
   hb_init (&ev);
   hb_printf (&ev, "\"e\":\"Run\",\"op\":\"%s\",\"x\":%d,\"path\":\"%s\",\"n\":%d,\"off\":%d,\"sa\":%d,\"sb\":%d,\"sd\":%d,\"sd2\":%d,\"acc\":%d,\"sc\":%d",
       g->op->name, g->mult, path, n, off, g->sa, g->sb, g->sd, g->sd2, g->is_acc, g->scalar_b ? 1 : 0);
@@ -134,13 +138,14 @@ static void
 do_line (const char *path, char *line)
 {
   char opname[32], mode[16];
-  int mult = 1, cls = 0, native = strcmp (path, "emu") != 0, i, j;
+  int mult = 1, cls = 0, native = strcmp (path, "emu") != 0 && !hc_mode, i, j;
   unsigned long seed = 1;
   Prog g;
   OrcTarget *t = native ? orc_target_get_by_name (path) : NULL;
   HRng r;
   static const int ns[] = { 1, 15, 16, 17, 33, 64, 7, 3, 31, 32, 100 };
   if (sscanf (line, "%31s %d %15s %lu", opname, &mult, mode, &seed) < 3) return;
+  hc_begin_line (line);
   r.s = seed * 0x9e3779b97f4a7c15ULL + fnv1a (opname, strlen (opname));
   force_kind = !strcmp (mode, "par") ? 1 : (!strcmp (mode, "con") ? 2 : 0);
   if (force_kind == 2) {
@@ -153,7 +158,8 @@ do_line (const char *path, char *line)
       if (shiftop && o->src_size[1]) const_value %= 8 * o->src_size[0];
       if (!strcmp (opname, "divluw") && (const_value & 0xff) == 0) const_value |= 1;
       if (!make (&g, opname, mult, t, &cls)) return;
-      if (!g.sb || (native && !ORC_COMPILE_RESULT_IS_SUCCESSFUL (cls)) || (!native && (ORC_COMPILE_RESULT_IS_FATAL (cls) || !g.p->orccode))) {
+      if (hc_mode && g.sb && cls) { if (hc_mode == 'r') HEMIT ("\"e\":\"NoCode\",\"op\":\"%s\",\"x\":%d,\"path\":\"%s\",\"res\":%d", opname, mult, path, cls); orc_program_free (g.p); return; }
+      if (!g.sb || (native && !ORC_COMPILE_RESULT_IS_SUCCESSFUL (cls)) || (!native && !hc_mode && (ORC_COMPILE_RESULT_IS_FATAL (cls) || !g.p->orccode))) {
         orc_program_free (g.p); return;
       }
       for (i = 0; i < 6; i++) {
@@ -166,12 +172,13 @@ do_line (const char *path, char *line)
     return;
   }
   if (!make (&g, opname, mult, t, &cls)) return;
-  if (native && !ORC_COMPILE_RESULT_IS_SUCCESSFUL (cls)) {
+  if (hc_mode == 'g') { orc_program_free (g.p); return; }
+  if ((native || hc_mode) && !ORC_COMPILE_RESULT_IS_SUCCESSFUL (cls)) {
     HEMIT ("\"e\":\"NoCode\",\"op\":\"%s\",\"x\":%d,\"path\":\"%s\",\"res\":%d", opname, mult, path, cls);
     orc_program_free (g.p);
     return;
   }
-  if (!native && (ORC_COMPILE_RESULT_IS_FATAL (cls) || !g.p->orccode)) { orc_program_free (g.p); return; }
+  if (!native && !hc_mode && (ORC_COMPILE_RESULT_IS_FATAL (cls) || !g.p->orccode)) { orc_program_free (g.p); return; }
   {
     int ea = g.sa * mult, eb = g.sb * mult;
     if (!strcmp (mode, "ex8") && g.sa == 1 && (g.sb == 0 || g.sb == 1)) {
@@ -241,8 +248,9 @@ main (int argc, char **argv)
   if (argc < 3) { fprintf (stderr, "usage: h_ops <emu|avx|sse|mmx> <plan>\n"); return 2; }
   f = fopen (argv[2], "r");
   if (!f) { perror (argv[2]); return 2; }
-  HEMIT ("\"e\":\"Reset\"");
   orc_init ();
+  hc_init (argv[1]);
+  HEMIT ("\"e\":\"Reset\"");
   while (getline (&line, &cap, f) > 0) {
     pid_t pid; int st;
     fflush (NULL);
